@@ -1,9 +1,16 @@
 import PeliteModel.Driver.Image
 import PeliteModel.Model.Exports
+import PeliteModel.Model.WrapExports
 import PeliteModel.Spec.Exports
 /-! Driver handlers for the export directory (C08): `exports <k> dump`, `export <k> <query> <args…>`.
 The part after ` ## ` is the answer of the declarative specification (`Spec/Exports.lean`) evaluated on
-the abstract tables, without references, and `hyp=1` when the theorem behind it applies. -/
+the abstract tables, without references, and `hyp=1` when the theorem behind it applies.
+
+For the constructors `wf` / `wv` the harness calls the format agnostic API (`src/wrap/exports.rs`,
+`Wrap<Pe32, Pe64>::exports`); the driver then answers through the model of that API
+(`Model/WrapExports.lean`: `wExports`, `WExports.*`, `WBy.*` with the hand-written iterators,
+`wGetExport`), for every other constructor through `Model/Exports.lean`.  `proc` is not offered by
+the wrappers (the harness unwraps first): always the format specific model. -/
 namespace Pelite.Driver
 open Pelite.Proto Pelite.Pe Pelite.Exports
 
@@ -51,8 +58,77 @@ def tabStr (t : Tab) (size : Nat) (at_ : Nat → Nat) : String :=
   let r := if t.isStatic then "static" else s!"{t.off}:{t.cnt * size}"
   s!"[{join vals}]@{r}"
 
-def dumpP (v : View) : P String := do
-  match ← strict (tryFrom v) with
+/-- `k` without its `@<base>`; `wf` / `wv` name the format agnostic API -/
+def isWrapKind (k : String) : Bool :=
+  let kind := match k.splitOn "@" with
+    | [a, _] => a
+    | _ => k
+  kind == "wf" || kind == "wv"
+
+/-- the methods of `By` the operations call: of the format specific `By` (`ByApi.ofBy`) or of the
+wrapper `Wrap<By32, By64>` (`ByApi.ofWrap`) -/
+structure ByApi where
+  y : By                       -- the wrapped `By`: the specification side reads the abstract tables off it
+  fns : Tab
+  names : Tab
+  idx : Tab
+  fnAt : Nat → Nat
+  nameAt : Nat → Nat
+  idxAt : Nat → Nat
+  checkSorted : Out Bool
+  ordinal : Nat → Out Export
+  index : Nat → Out Export
+  hint : Nat → Out Export
+  name : List Nat → Out Export
+  nameLinear : List Nat → Out Export
+  hintName : Nat → List Nat → Out Export
+  imp : ImportQ → Out Export
+  nameOfHint : Nat → Out Ref
+  nameLookup : Nat → Out Import
+  iter : List (Out Export)
+  iterNames : List (Out Ref × Out Export)
+  iterNameIndices : List (Out (Out Ref × Nat))
+
+def ByApi.ofBy (y : By) : ByApi :=
+  { y := y, fns := y.fns, names := y.names, idx := y.idx, fnAt := y.fnAt, nameAt := y.nameAt, idxAt := y.idxAt,
+    checkSorted := y.checkSorted, ordinal := y.ordinal, index := y.index, hint := y.hint, name := y.name,
+    nameLinear := y.nameLinear, hintName := y.hintName, imp := y.import, nameOfHint := y.nameOfHint,
+    nameLookup := y.nameLookup, iter := y.iter, iterNames := y.iterNames, iterNameIndices := y.iterNameIndices }
+
+def ByApi.ofWrap (w : WBy) : ByApi :=
+  { y := w.get, fns := w.functions, names := w.names, idx := w.nameIndices,
+    fnAt := fun i => le32 w.b (w.functions.off + 4 * i), nameAt := fun i => le32 w.b (w.names.off + 4 * i),
+    idxAt := fun i => le16 w.b (w.nameIndices.off + 2 * i),
+    checkSorted := w.checkSorted, ordinal := w.ordinal, index := w.index, hint := w.hint, name := w.name,
+    nameLinear := w.nameLinear, hintName := w.hintName, imp := w.import, nameOfHint := w.nameOfHint,
+    nameLookup := w.nameLookup, iter := w.iter, iterNames := w.iterNames, iterNameIndices := w.iterNameIndices }
+
+/-- the methods of `Exports` the dump calls -/
+structure ExportsApi where
+  image : Ref
+  dllName : Out Ref
+  ordinalBase : Nat
+  functions : Out Ref
+  names : Out Ref
+  nameIndices : Out Ref
+  by_ : Out ByApi
+
+/-- `p.exports()`: `Pe::exports` of a format specific view, `Wrap<Pe32, Pe64>::exports` of a wrapper -/
+def exportsApi (wrap : Bool) (v : View) : Out ExportsApi :=
+  if wrap then
+    (wExports (Wrap.ofView v)).bind fun w =>
+      .ok { image := w.image, dllName := w.dllName, ordinalBase := w.ordinalBase, functions := w.functions,
+            names := w.names, nameIndices := w.nameIndices, by_ := w.by.bind fun wy => .ok (ByApi.ofWrap wy) }
+  else
+    (tryFrom v).bind fun e =>
+      .ok { image := e.image, dllName := e.dllName, ordinalBase := e.ordinalBase, functions := e.functions,
+            names := e.names, nameIndices := e.nameIndices, by_ := e.by.bind fun y => .ok (ByApi.ofBy y) }
+
+/-- `p.exports().and_then(|e| e.by())` -/
+def byApi (wrap : Bool) (v : View) : Out ByApi := (exportsApi wrap v).bind (·.by_)
+
+def dumpP (wrap : Bool) (v : View) : P String := do
+  match ← strict (exportsApi wrap v) with
   | .error e => pure ("err " ++ e.name)
   | .ok e =>
     let b := v.b
@@ -61,7 +137,7 @@ def dumpP (v : View) : P String := do
     let n ← rtab e.names
     let i ← rtab e.nameIndices
     let head := s!"ok img={ref e.image} dll={dll} base={e.ordinalBase} fns={f} names={n} idx={i}"
-    match ← strict e.by with
+    match ← strict e.by_ with
     | .error er => pure (head ++ " by=" ++ ecs er)
     | .ok y =>
       let sorted ← (do match ← strict y.checkSorted with
@@ -80,7 +156,7 @@ def dumpP (v : View) : P String := do
 
 def dumpOp (img : Option Img) (k : String) : String :=
   withView img k fun v =>
-    match dumpP v with
+    match dumpP (isWrapKind k) v with
     | .ok s => s
     | .error s => s
 
@@ -132,7 +208,8 @@ def queryOp (img : Option Img) (k : String) (q : String) (a : List String) : Str
               | .import i => specImport T cs i)
           | _ => none
         if q == "get" then
-          rexp b (getExport v qq) ++ (match spec with
+          -- wrappers: `get_export_by_name` / `_by_ordinal` / `_by_import` of `Wrap<Pe32, Pe64>`
+          rexp b (if isWrapKind k then wGetExport (Wrap.ofView v) qq else getExport v qq) ++ (match spec with
             | some (s, h) => s!" ## spec={specOut s} hyp={if h then 1 else 0}"
             | none => "")
         else
@@ -140,9 +217,9 @@ def queryOp (img : Option Img) (k : String) (q : String) (a : List String) : Str
             | some (s, h) => s!" ## spec={(outStr toString (Spec.procAddress v.imageBase (sizeOfImage v.b) v.fmt.vaLimit s)).replace " " "_"} hyp={if h then 1 else 0}"
             | none => "")
     else
-    match (tryFrom v).bind (·.by) with
+    match byApi (isWrapKind k) v with
     | .ok y =>
-      let T := tablesOf y
+      let T := tablesOf y.y
       let one (m : Out Export) (s : Out Spec.Sym) (hyp : Bool := true) : String :=
         rexp b m ++ s!" ## spec={specOut s} hyp={if hyp then 1 else 0}"
       match q, a with
@@ -154,7 +231,7 @@ def queryOp (img : Option Img) (k : String) (q : String) (a : List String) : Str
       | "hint_name", [h, nm] => one (y.hintName (num h) (unhexL nm)) (Spec.hintName T cs (num h) (unhexL nm)) (Spec.nameDetermined T cs)
       | "import", a =>
         (match importQ a with
-         | some i => let (s, h) := specImport T cs i; one (y.import i) s h
+         | some i => let (s, h) := specImport T cs i; one (y.imp i) s h
          | none => "bad-op")
       | "name_of_hint", [h] =>
         outStr (cstrStr b) (y.nameOfHint (num h)) ++
